@@ -8,8 +8,10 @@ package c09
 import (
 	"encoding/json"
 	"fmt"
+	"math/big"
 	"reflect"
 	"sort"
+	"strconv"
 	"strings"
 	"unsafe"
 
@@ -126,6 +128,11 @@ const (
 	mDeliver  = iota // the value must be delivered (and compared) as `want`
 	mReject          // the configuration must be refused
 	mUnjudged        // the statement does not decide; executed, recorded, never reported
+	// mUnaltered: a number of the declared type's size but of another numeric type. Whether it is
+	// refused, panics at the call or is accepted is not stated; but if a caller does receive a value
+	// it must be the supplied number ("unaltered"), and as a condition it must not select calls whose
+	// argument is a different number.
+	mUnaltered
 )
 
 const (
@@ -237,10 +244,11 @@ func cells(ks []*kindSpec) []*cell {
 	open("Stringer", clSameSize, "int64(0)", int64(0), whyNotImpl)
 
 	// []byte
-	b1, b2 := []byte("ab"), []byte("zz")
+	bb := []byte("abcd") // b1 is a window of a longer array: other windows start at the same element
+	b1, b2 := bb[:2], []byte("zz")
 	deliverNil("[]byte", clUntypedNil, "nil", nil, b1)
 	deliverNil("[]byte", clTypedNil, "[]byte(nil)", []byte(nil), b1)
-	deliver("[]byte", clNonZero, "[]byte(\"ab\")", b1, b1, b2, nilK)
+	deliver("[]byte", clNonZero, "[]byte(\"ab\")", b1, b1, b2, bb[:1], bb[:4], bb[:0], nilK)
 	open("[]byte", clSameSize, "[3]int64{}", [3]int64{}, whySameSize)
 	reject("[]byte", clSmaller, "[2]int64{}", [2]int64{})
 	reject("[]byte", clLarger, "[4]int64{}", [4]int64{})
@@ -276,9 +284,15 @@ func cells(ks []*kindSpec) []*cell {
 	open("int64", clUntypedNil, "nil", nil, whyNilNonNilable)
 	deliver("int64", clZero, "int64(0)", int64(0), int64(0), int64(7))
 	deliver("int64", clNonZero, "int64(7)", int64(7), int64(7), int64(8), int64(0))
-	open("int64", clSameSize, "int(7)", 7, whySameSize)
-	open("int64", clSameSize, "uint64(7)", uint64(7), whySameSize)
-	open("int64", clSameSize, "float64(1.5)", 1.5, whySameSize)
+	unaltered := func(kind, label string, v interface{}, negs ...interface{}) {
+		out = append(out, &cell{kind: k[kind], class: clSameSize, label: label, v: v, mode: mUnaltered, negs: negs, why: whySameSize})
+	}
+	unaltered("int64", "int(7)", 7, int64(8), int64(0))
+	unaltered("int64", "uint64(7)", uint64(7), int64(8))
+	unaltered("int64", "float64(1.5)", 1.5, int64(1), int64(2))
+	unaltered("int64", "float64(2.7)", 2.7, int64(2), int64(3))
+	unaltered("int64", "uint64(2^63)", uint64(1)<<63, int64(-1<<63), int64(0))
+	unaltered("int64", "float64(2^53+2)", float64(1<<53+2), int64(1<<53+1), int64(1<<53+3))
 	reject("int64", clSmaller, "int32(7)", int32(7))
 	reject("int64", clSmaller, "int8(7)", int8(7))
 	reject("int64", clLarger, "[2]int64{1,2}", [2]int64{1, 2})
@@ -552,6 +566,10 @@ func (r *runner) viaReturn(c *cell, seq bool) (fs []finding, log []string) {
 		fs = append(fs, finding{via, "accepted", "a value whose size differs from the declared type was accepted by " + via + "; " + d})
 		return
 	}
+	if p && c.mode == mUnaltered {
+		log = append(log, via+": not accepted")
+		return
+	}
 	if p {
 		r.judged++
 		log = append(log, via+": panic at configuration: "+short(msg))
@@ -566,10 +584,22 @@ func (r *runner) viaReturn(c *cell, seq bool) (fs []finding, log []string) {
 		o, cm, cp := tryRet(k)
 		r.ops++
 		r.judged++
+		if cp && c.mode == mUnaltered {
+			log = append(log, via+": panic at call")
+			return
+		}
 		if cp {
 			log = append(log, via+": panic at call: "+short(cm))
 			fs = append(fs, finding{via, "panic-at-call:" + short(cm), fmt.Sprintf("call %d panicked: %s", i+1, short(cm))})
 			return
+		}
+		if c.mode == mUnaltered {
+			log = append(log, via+": delivered")
+			if !sameNumber(c.v, o.boxed) {
+				fs = append(fs, finding{via, "altered", fmt.Sprintf("call %d delivered %s for the supplied %s: a different number", i+1, describe(o.boxed), describe(c.v))})
+				return
+			}
+			continue
 		}
 		if c.mode == mUnjudged {
 			log = append(log, via+": delivered "+shallow(o.boxed)) // never look inside a reinterpretation
@@ -583,7 +613,7 @@ func (r *runner) viaReturn(c *cell, seq bool) (fs []finding, log []string) {
 			}
 		}
 	}
-	if seq || c.mode == mUnjudged {
+	if seq || c.mode == mUnjudged || c.mode == mUnaltered {
 		// (no Eval on a cell that is not judged: the stored value may be a reinterpretation that
 		// nothing should look into)
 		return
@@ -609,6 +639,25 @@ func (r *runner) viaReturn(c *cell, seq bool) (fs []finding, log []string) {
 		}
 	}
 	return
+}
+
+// sameNumber compares two numeric values of possibly different numeric types exactly.
+func sameNumber(a, b interface{}) bool {
+	rat := func(x interface{}) *big.Rat {
+		v := reflect.ValueOf(x)
+		switch v.Kind() {
+		case reflect.Int, reflect.Int8, reflect.Int16, reflect.Int32, reflect.Int64:
+			return new(big.Rat).SetInt64(v.Int())
+		case reflect.Uint, reflect.Uint8, reflect.Uint16, reflect.Uint32, reflect.Uint64, reflect.Uintptr:
+			return new(big.Rat).SetInt(new(big.Int).SetUint64(v.Uint()))
+		case reflect.Float32, reflect.Float64:
+			r, _ := new(big.Rat).SetString(strconv.FormatFloat(v.Float(), 'f', -1, 64))
+			return r
+		}
+		return nil
+	}
+	ra, rb := rat(a), rat(b)
+	return ra != nil && rb != nil && ra.Cmp(rb) == 0
 }
 
 func (c *cell) wantText() string {
@@ -640,6 +689,10 @@ func (r *runner) viaWhen(c *cell) (fs []finding, log []string) {
 		fs = append(fs, finding{"When", "accepted", "a value whose size differs from the declared parameter type was accepted by When"})
 		return
 	}
+	if p && c.mode == mUnaltered {
+		log = append(log, "When: not accepted")
+		return
+	}
 	if p {
 		r.judged++
 		log = append(log, "When: panic at configuration: "+short(msg))
@@ -648,6 +701,19 @@ func (r *runner) viaWhen(c *cell) (fs []finding, log []string) {
 	}
 	if c.mode == mUnjudged {
 		log = append(log, "When: accepted")
+		return
+	}
+	if c.mode == mUnaltered {
+		log = append(log, "When: accepted")
+		for _, neg := range c.negs {
+			n, _, cp := tryPar(k, neg)
+			r.ops++
+			r.judged++
+			if !cp && n == stubClause {
+				fs = append(fs, finding{"When", "different-argument-selected", "a call whose argument is " + describe(neg) + " selected the clause for the condition value " + describe(c.v)})
+				return
+			}
+		}
 		return
 	}
 	// real calls
@@ -985,6 +1051,9 @@ func Run(c *vk.Ctx) {
 			exp := "must be delivered as " + cl.wantText()
 			if cl.mode == mReject {
 				exp = "has another size than the declared type and must be rejected at configuration time"
+			}
+			if cl.mode == mUnaltered {
+				exp = "is a number of another numeric type of the same size: it may be refused, but whatever reaches a caller must be that number"
 			}
 			c.Violate(key(cl, f), fmt.Sprintf("%s %s: supplied %s %s; via %s: %s", cl.kind.name, cl.class, cl.label, exp, f.via, f.detail), cc)
 		}
